@@ -106,7 +106,13 @@ func (sc *scenario) steadyCheck() {
 				ok = false
 			}
 		}
-		if ok && len(got) < len(exp) {
+		// an event ChannelEvents had already taken out of the queue when the application closed its quit channel may be
+		// dropped (the model marks the run lossy at that step, label ceFwdQuit); nothing else may
+		allowed := sc.inFlightAtUserQuit()
+		if ok && len(got) < len(exp) && len(got) >= len(exp)-allowed {
+			sc.tag("in-flight-event-dropped-at-userquit")
+		}
+		if ok && len(got) < len(exp)-allowed {
 			missing := ""
 			seen := map[int]bool{}
 			for _, k := range m {
@@ -135,6 +141,22 @@ func (sc *scenario) steadyCheck() {
 			}
 		}
 	}
+}
+
+// inFlightAtUserQuit: 1 when the trace shows ChannelEvents leaving through the quit case of its forwarding select
+// (it then held one event it had dequeued), else 0
+func (sc *scenario) inFlightAtUserQuit() int {
+	if !sc.userQuitClosed.Load() {
+		return 0
+	}
+	sc.c.mu.Lock()
+	defer sc.c.mu.Unlock()
+	for _, t := range sc.c.trace {
+		if strings.HasSuffix(t, ".ce-fwd-quit") {
+			return 1
+		}
+	}
+	return 0
 }
 
 // freeCheck (op `freecheck`, free-running cases only: single-byte input, so no escape sequence can be cut by the
@@ -254,6 +276,8 @@ func (sc *scenario) resumeCheck() {
 			cls := "input-lost-after-resume"
 			if len(got) == 0 || !contains(sc.exp2, got[len(got)-1]) {
 				cls = "input-dead-after-resume"
+			} else if pasteMarkersOnly(got, sc.exp2) {
+				cls = "paste-marker-lost-after-resume"
 			}
 			sc.find(cls, "after Suspend+Resume %d input events were injected (%s) but the delivered tail is %s", n, clipList(sc.exp2, 20), clipList(tail, 40))
 		}
@@ -288,13 +312,135 @@ func (sc *scenario) resumeCheck() {
 	}
 }
 
+// pasteMarkersOnly: the delivered tail is the expected batch minus paste-start / paste-end events only
+func pasteMarkersOnly(got, exp []string) bool {
+	var e []string
+	nm := 0
+	for _, x := range exp {
+		if x == "P1" || x == "P0" {
+			nm++
+		} else {
+			e = append(e, x)
+		}
+	}
+	if nm == 0 {
+		return false
+	}
+	// walk back over got: the non-marker events of exp must be the non-marker tail of got
+	var g []string
+	for i := len(got) - 1; i >= 0 && len(g) < len(e); i-- {
+		if got[i] != "P1" && got[i] != "P0" {
+			g = append([]string{got[i]}, g...)
+		}
+	}
+	return strings.Join(g, ",") == strings.Join(e, ",")
+}
+
+// tailCheck (op `checktail`): nothing was shut down; the second batch (op `more`) was injected after the first one had been
+// consumed completely, so its events are the tail of what was delivered (C11: pasted text arrives between ONE paste-start
+// and ONE paste-end, whatever came before)
+func (sc *scenario) tailCheck() {
+	if sc.suspended || sc.paused.Load() || sc.c.free.Load() || sc.readErrInjected || len(sc.exp2) == 0 {
+		sc.tag("checktail-skipped")
+		return
+	}
+	if sc.expire() {
+		sc.tag("check-skipped-escape-timeout")
+		return
+	}
+	sc.tag("tail-check")
+	got, _ := sc.inputDelivered()
+	n := len(sc.exp2)
+	if len(got) < n || strings.Join(got[len(got)-n:], ",") != strings.Join(sc.exp2, ",") {
+		tail := got
+		if len(tail) > n+3 {
+			tail = tail[len(tail)-n-3:]
+		}
+		cls := "input-lost"
+		if pasteMarkersOnly(got, sc.exp2) {
+			cls = "paste-marker-lost"
+		}
+		sc.find(cls, "%d input events were injected (%s) after the earlier input had been consumed, but the delivered tail is %s", n, clipList(sc.exp2, 20), clipList(tail, 40))
+	}
+}
+
+// ---- real-time input (ops `inj`, `esccheck`, `keycheck`; free running only) — C02: "once the escape timeout has expired no
+// byte remains buffered".  Only a LOWER bound on the flush is checked, with a deadline of 60 escape timeouts.
+
+const escDeadline = 3 * time.Second
+
+func (sc *scenario) inputDescs() []string {
+	sc.gmu.Lock()
+	defer sc.gmu.Unlock()
+	var ds []string
+	for _, d := range sc.got {
+		if isInput(d.desc) {
+			ds = append(ds, d.desc)
+		}
+	}
+	return ds
+}
+
+func (sc *scenario) nGot() int {
+	sc.gmu.Lock()
+	defer sc.gmu.Unlock()
+	return len(sc.got)
+}
+
+// escCheck: the input so far ended in an incomplete sequence and nothing more is coming.  Observed where the statement speaks:
+// mainLoop's own reports (schedule points main-chunk / main-chunk-end / main-timer-end, which stay readable when the
+// goroutines run freely) — within the deadline it must have taken every byte out of keychan and its buffer must be empty.
+// How the bytes were decoded is not judged (ESC ESC is one Esc key; ESC [ is Alt-[; …).
+func (sc *scenario) escCheck() {
+	sc.tag("esc-check")
+	dl := time.Now().Add(escDeadline)
+	for {
+		if mainRecv.Load() >= int64(sc.injBytes) && mainBuf.Load() == 0 {
+			break
+		}
+		if time.Now().After(dl) {
+			sc.escOK = false
+			sc.find("escape-timeout-bytes-stuck", "%d bytes were read from the terminal, the last of them an incomplete sequence, and nothing more arrived for %v (the escape timeout is 50 ms): the main loop has received %d of them and still holds %d byte(s) in its buffer; delivered events: [%s]", sc.injBytes, escDeadline, mainRecv.Load(), mainBuf.Load(), clipList(sc.inputDescs(), 30))
+			return
+		}
+		time.Sleep(2 * time.Millisecond)
+	}
+	sc.escOK = true
+}
+
+// keyCheck: a complete key arrived after the silence: it decodes on its own — the main loop consumes it completely and the
+// event it stands for is the last input event delivered (a lower bound again: waited for up to the deadline; the events of
+// the earlier flush may still be on their way when the check starts, so nothing is concluded from counts).
+func (sc *scenario) keyCheck(want string) {
+	if !sc.escOK {
+		sc.tag("keycheck-skipped")
+		return
+	}
+	sc.tag("key-check")
+	dl := time.Now().Add(escDeadline)
+	for {
+		ds := sc.inputDescs()
+		if mainRecv.Load() >= int64(sc.injBytes) && mainBuf.Load() == 0 && len(ds) > 0 && ds[len(ds)-1] == want {
+			return
+		}
+		if time.Now().After(dl) {
+			sc.escOK = false
+			sc.find("escape-timeout-stale-state", "after an incomplete sequence had timed out, a complete key was read: it must decode on its own as %s; %v later the main loop has received %d of %d bytes and holds %d in its buffer, delivered events: [%s]", want, escDeadline, mainRecv.Load(), sc.injBytes, mainBuf.Load(), clipList(ds, 30))
+			return
+		}
+		time.Sleep(2 * time.Millisecond)
+	}
+}
+
 // finalOracles: what holds in every run, whatever was shut down when.
 func (sc *scenario) finalOracles() {
 	got, gidx := sc.inputDelivered()
 	exp := append(append([]string{}, sc.exp...), sc.expMid...)
 	exp = append(exp, sc.exp2...)
 	m := match(got, exp)
-	if !sc.expire() {
+	if sc.timed {
+		sc.tag("timed-input-judged-by-its-own-checks")
+	} else if !sc.expire() {
 		for i, k := range m {
 			if k < 0 {
 				cls := "input-event-spurious"
